@@ -13,6 +13,7 @@ STATUS = {
     "40": [(1, None, 2, 13), (14, None, 15, 26), (27, None, 28, 39), (48, None, 49, 51), (54, None, 55, 56)],
     "50": [(1, 2, 3, 11), (12, 13, 14, 23), (24, None, 25, 34), (35, 36, 37, 45), (46, None, 47, 56)],
     "60": [(1, 2, 3, 12), (13, None, 14, 23), (24, None, 25, 34), (35, 36, 37, 45), (46, 47, 48, 56)],
+    "53": [(1, 2, 3, 12), (13, None, 14, 23), (24, None, 25, 33), (34, None, 35, 46), (47, 48, 49, 56)],
     "44": [(5, None, 6, 23), (35, None, 36, 46), (47, None, 48, 49), (50, None, 51, 56)],
     "45": [(1, None, 2, 3), (4, None, 5, 6), (7, None, 8, 9), (10, None, 11, 12), (13, None, 14, 15), (16, 17, 18, 26), (27, None, 28, 38), (39, None, 40, 51)],
 }
@@ -72,6 +73,8 @@ def verdict(reg, mb, df=21, ac13=0):
         return "open"
     if reg == "40":
         return "valid"
+    if reg == "53":
+        return "open"  # no plausibility envelope is stated for BDS 5,3: only its status rules are judged
     if reg == "50":
         roll = signed(mb, 2, 3, 11) * 45 / 256 if g(mb, 1, 1) else None
         gs = g(mb, 25, 34) * 2 if g(mb, 24, 24) else None
